@@ -5,6 +5,6 @@ cd "$(dirname "$0")"
 export GOFLAGS=-mod=mod GOPROXY=off GOSUMDB=off GOTOOLCHAIN=local
 mkdir -p evidence replays harness/bin
 (cd harness && go build -tags verif -o bin/rgh ./cmd/rgh)
-./harness/bin/rgh extract -out lean/Rg/Gen
+(cd harness && ./bin/rgh extract -out ../lean/Rg/Gen)   # cwd must be the harness module: rule files import dsl through `go list`
 (cd lean && lake build Rg Drv rgdrv)
 echo setup ok
